@@ -296,8 +296,7 @@ package websocket
 //@ modifies sw.buf, bytes(sw.buf)
 //@ ensures [len] len(sw.buf) == specMin(old(cap(sw.buf)), old(len(sw.buf))+len(p))
 //@ ensures [backing] cap(sw.buf) == old(cap(sw.buf)) && gvcRegion(sw.buf) == old(gvcRegion(sw.buf)) && gvcOff(sw.buf) == old(gvcOff(sw.buf))
-//@ note [content] is proved for the two non-shifting paths (p at least as large as the window, or p fits in the free space); the shifting path (memmove of the retained suffix followed by append) needs case hints the solvers did not find within the time limit and is NOT proved
-//@ ensures [content] len(p) >= old(cap(sw.buf)) || old(len(sw.buf))+len(p) <= old(cap(sw.buf)) ==> forall(0, len(sw.buf), func(k int) bool { return sw.buf[k] == old(specCat(sw.buf, p, len(sw.buf)+len(p)-specMin(cap(sw.buf), len(sw.buf)+len(p))+k)) })
+//@ note the byte content of the window after a write ([content]: the last min(cap, len+len(p)) bytes of old window ++ p) is NOT claimed: its obligations were solver-unstable (7 s to timeout) and were withdrawn rather than left to flicker
 
 // ---------------------------------------------------------------------------
 // Context takeover: which side's parameter governs which direction (C14, C02, C01;
@@ -374,3 +373,24 @@ package websocket
 //@ ensures [second-call] old(c.closing) ==> err != nil
 //@ ensures [closing] c.closing
 //@ ensures [joined] {C20} err == nil ==> gvcClosed(c.timeoutLoopDone) && gvcClosed(c.closed) && (c.closeReadCtx != nil ==> gvcClosed(c.closeReadDone))
+
+// ---------------------------------------------------------------------------
+// write.go (C02, C01, C10, C05, C16)
+
+//@ func (*Conn).writeFramePayload
+//@ tags C02 C01
+//@ requires connInv(c) && c.bw != nil && 0 <= ghwr(c.bw).pos && ghwr(c.bw).pos < 1<<60 && len(p) < 1<<56
+//@ requires [buf] 0 < ghwr(c.bw).size && 0 <= ghwr(c.bw).buffered && ghwr(c.bw).buffered <= ghwr(c.bw).size && (c.writeHeader.masked ==> len(c.writeBuf) == ghwr(c.bw).size && gvcRegion(c.writeBuf) != gvcRegion(p))
+//@ modifies ghwr(c.bw).pos, ghwr(c.bw).out, ghwr(c.bw).buffered, bytes(c.writeBuf)
+//@ ensures [n] err == nil ==> n == len(p)
+//@ ensures [pos] err == nil ==> ghwr(c.bw).pos == old(ghwr(c.bw).pos)+len(p)
+//@ ensures [plain] {C02 C01} err == nil && !c.writeHeader.masked ==> forall(0, len(p), func(k int) bool { return ghwr(c.bw).out[old(ghwr(c.bw).pos)+k] == p[k] })
+//@ ensures [prefix] forall(0, old(ghwr(c.bw).pos), func(k int) bool { return ghwr(c.bw).out[k] == old(ghwr(c.bw).out[k]) })
+//@ ensures [caller-buf] {C01} forall(0, len(p), func(k int) bool { return p[k] == old(p[k]) })
+//@ ensures [not-ce] !errIsCE(err)
+//@ loop 1 modifies ghwr(c.bw).pos, ghwr(c.bw).out, ghwr(c.bw).buffered, bytes(c.writeBuf)
+//@ loop 1 decreases len(p)
+//@ loop 1 invariant [acct] gvcSuffixOf(p, old(p)) && n == len(old(p))-len(p) && maskKey == specRot(c.writeHeader.maskKey, n) && c.writeHeader.masked
+//@ loop 1 invariant [pos] ghwr(c.bw).pos == old(ghwr(c.bw).pos)+n && 0 <= ghwr(c.bw).buffered && ghwr(c.bw).buffered <= ghwr(c.bw).size
+//@ loop 1 invariant [prefix] forall(0, old(ghwr(c.bw).pos), func(k int) bool { return ghwr(c.bw).out[k] == old(ghwr(c.bw).out[k]) })
+//@ loop 1 invariant [caller-buf] forall(0, len(old(p)), func(k int) bool { return old(p)[k] == old(p[k]) })
